@@ -226,6 +226,42 @@ Theorem C15_expansion_deck : forall (T : Type) (SC : Scalar T) (e : env (T:=T))
 Proof. exact @canon_deck. Qed.
 Print Assumptions C15_expansion_deck.
 
+(* ---- when the construction is defined; the LIKE cards that abbreviate no card ---- *)
+
+(* option tokens made of complete keyword groups (each reads exactly its own
+   tokens, starts with a keyword that is not a number, writes something) are
+   cut back into these groups: the first stage of the construction fails only
+   when some token belongs to no keyword group that is read ("U=3 7") — not
+   an MCNP card *)
+Theorem C15_expansion_groups_complete : forall (T : Type) (SC : Scalar T) (e : env (T:=T))
+    (gs : list (group (T:=T))),
+  Forall (valid SC e) gs -> Forall (fun g => kws_empty (snd g) = false) gs ->
+  groups SC e (gtoks gs) = Ok gs.
+Proof. exact @groups_complete. Qed.
+Print Assumptions C15_expansion_groups_complete.
+
+(* no explicit card (MAT / RHO exist in BUT lists only) is parsed to a cell that
+   has a material and no density; "LIKE <void cell> BUT MAT=m" without RHO is
+   parsed to such a cell (example below), so it abbreviates no card, and the
+   construction is rightly undefined there: MCNP wants a density for every
+   material, the LIKE card itself is not valid input *)
+Theorem C15_explicit_card_has_density : forall (T : Type) (SC : Scalar T) (e : env (T:=T))
+    (rank : nat) (lat : option (list (Z * Z))) (mw : list string) (g : string)
+    (toks : list string) (k : kws (T:=T)) (c : cell (T:=T)) (z : Z),
+  parse_kws SC e toks = Ok k -> k_mat k = None -> k_rho k = None ->
+  worker_w SC e rank lat (mw, g, toks) = Ok c ->
+  pyint (c_mat c) = Some z -> z <> 0%Z -> c_rho c <> None.
+Proof. exact @explicit_card_has_density. Qed.
+Print Assumptions C15_explicit_card_has_density.
+
+Example C15_example_no_density :
+  parse_one_cell RS 2 (wenv 0%R 1%R)
+    [(1%Z, (" 0", " -1 ", "imp:n=1")); (2%Z, ("", " like 1 but", " mat=2"))]
+    1 None ("", " like 1 but", " mat=2") =
+  Ok (mkCell "2" None " -1 " 1%R 0%Z None None None None) /\
+  canon_card RS (wenv 0%R 1%R) (" 0", " -1 ", "imp:n=1  mat=2") = Err EUnsupported.
+Proof. exact (example_no_density RS 0%R 1%R). Qed.
+
 Example C15_example_expansion_deck :
   canon_table RS (xenv 0%R 1%R) xtbl
     [(1%Z, ("1 -1.0", " -1 ", "imp:n 0"));
